@@ -318,7 +318,7 @@ class Check:
         path = os.path.join(WORK, "replays", f"{self.pid}-{i}.json")
         replay = dict(replay)
         replay.update({"property": self.pid, "tag": tag, "ev": ev, "seed": self.seed, "tier": self.tier,
-                       "detail": detail})
+                       "detail": detail, "drive": getattr(self, "ctx_drive", None)})
         ej = json.dumps(replay)
         if len(ej) > 2_000_000:
             replay["event"] = "(too large; see trace + event_index)"
